@@ -230,6 +230,10 @@ func RepoFrame(stack string) string {
 	return "unknown"
 }
 
+// HarnessErrPrefix marks panics raised by the harness itself when an observation point is missing; they make the
+// case inconclusive instead of a violation.
+const HarnessErrPrefix = "HARNESS-CANNOT-OBSERVE: "
+
 // Guard runs f and converts a panic into (true, frame, text).
 func Guard(f func()) (panicked bool, frame string, text string) {
 	defer func() {
@@ -305,7 +309,11 @@ func ChildMain(args []string) int {
 		res := &Result{Idx: idx, Case: c.ID, Obs: map[string]int64{}}
 		t := &T{Env: env, Rng: env.Rand(ck.ID + "|" + c.ID), res: res, dset: map[string]bool{}, jf: jf}
 		p, frame, text := Guard(func() { c.Run(t) })
-		if p {
+		if p && strings.HasPrefix(text, HarnessErrPrefix) {
+			// the harness could not observe what it needs (e.g. an unexported field it reads by name is gone):
+			// nothing was decided
+			t.Inconclusive("case %s: %s", c.ID, text)
+		} else if p {
 			res.Panic = text
 			t.Violation("panic-in-harness-goroutine|"+frame, "case %s panicked: %s", c.ID, text)
 		}
